@@ -712,3 +712,10 @@ def _codeapi(ctx, R):
 
 
 RULES.append(("C10.CODEAPI", "the words kind / syllable count / dot count / area count / area mean the fields of the command record: getters and constructors of UnOptCode and OptCode (shared with C01.CODEAPI)", _codeapi))
+
+
+# rules of other properties re-run under this property's name; resolved by rules/main.py once every module can be
+# imported (the owners import this module themselves)
+DEFERRED_BUNDLES = [
+    {'prop': 'C10', 'tag': 'WRITER', 'module': 'p_c11', 'only': ('ONCE',), 'skip': (), 'why': 'the in-memory writers optimisation writes to'},
+]
